@@ -97,7 +97,7 @@ def floatGeo : Geo Float where
     let length := goHypot da.x da.y * goHypot db.x db.y
     GenF.Equal (div / length) 0.0
   sameDir da db :=
-    if da.y < da.x then signbit da.x == signbit db.x else signbit da.y == signbit db.y
+    if da.y.abs < da.x.abs then signbit da.x == signbit db.x else signbit da.y == signbit db.y
   angleEq0 p q := angleEqual (ptAngleBetween p q) 0.0
   angleIs0 p q := GenF.Equal (ptAngleBetween p q) 0.0
   rotPlus90 r := r + 90.0
